@@ -4,9 +4,9 @@ import numpy as np
 from common import *
 
 PRELUDE = "From MV Require Import Vec Restart R13.\n"
-MODELS = [("simple", [-4.0], [15.0], 8.0), ("dual", [-4.0], [15.0], 8.0), ("extended", [-5.0], [8.0], 8.0), ("super", [-5.0], [10.0], 8.0),
-          ("modelx", [-9.0], [12.0], 10.0), ("models", [-9.0], [12.0], 10.0), ("modelw", [-1.0], [20.0], 2.0),
-          ("vibronic", [0.1, -0.2, 0.15, 0.05, 0.3], [0.5, -0.3, 0.2, 0.1, 1.0], 2.0), ("shin-metiu", [-2.0], [5.0], 2.0)]
+MODELS = [("simple", [-4.0], [15.0], 8.0), ("shin-metiu-32", [-2.6], [-90.0], 2.0), ("dual", [-4.0], [15.0], 8.0), ("super", [-5.0], [10.0], 8.0),
+          ("vibronic", [0.1, -0.2, 0.15, 0.05, 0.3], [0.5, -0.3, 0.2, 0.1, 1.0], 2.0), ("modelw", [-1.0], [20.0], 2.0), ("extended", [-5.0], [8.0], 8.0),
+          ("modelx", [-9.0], [12.0], 10.0), ("models", [-9.0], [12.0], 10.0), ("shin-metiu", [-2.0], [5.0], 2.0)]
 
 
 def mk(cls, mname):
@@ -15,6 +15,8 @@ def mk(cls, mname):
     if cls == "md":
         return mudslide.AdiabaticMD, HarmonicModel([0.0, 0.1], 0.0, [[0.02, 0.003], [0.003, 0.05]], [2000.0, 500.0])
     C = dict(ehrenfest=mudslide.Ehrenfest, fssh=mudslide.TrajectorySH)[cls]
+    if mname == "shin-metiu-32":
+        return C, M["shin-metiu"](nstates=3, nel=32)      # coarse grid: fresh eigenvectors differ in sign from the tracked ones left of x = -4.5
     return C, M[mname]()
 
 
@@ -40,15 +42,34 @@ def run(tier, seed):
         if it % 2 == 1:
             dt = dt * rng.choice([0.7, 1.1, 0.23, 0.3])       # time steps that are not exactly representable
         t0 = rng.choice([0.0, 0.0, 37.5, 1234.1, -12.3])
-        n = rng.choice([40, 90, 160]) if mname in ("dual", "super", "models", "simple") else rng.choice([12, 30])
+        n = rng.choice([40, 90, 160]) if mname in ("dual", "super", "models", "simple") else 40 if mname == "shin-metiu-32" else rng.choice([12, 30])
         rule = rng.choice(["max_steps", "max_time", "max_time_nonmultiple"])
         Z = [rng.choice([2.0, 2.0, 2.0, rng.random() * 0.2, rng.random()]) for _ in range(n + 5)]
+        if cls == "fssh" and it % 2 == 0:
+            Z = [rng.choice([2.0, rng.random() * 0.05, rng.random() * 0.01]) for _ in range(n + 5)]      # hop-rich: restarts right after hops, active state not the most populated one
         lim = dict(max_steps=n) if rule == "max_steps" else dict(max_time=t0 + (dt * n if rule == "max_time" else dt * (n - 0.4)), max_steps=-1)
         zkw = (lambda zz: dict(zeta_list=list(zz))) if cls == "fssh" else (lambda zz: {})
         args = (x0, p0) if cls == "md" else (x0, p0, 0)
         full = C(model, *args, dt=dt, t0=t0, **lim, **zkw(Z)).simulate()
         nfull = len(full)
-        ks = sorted(set([1, 2, nfull - 2] + [rng.randint(1, nfull - 2) for _ in range(4 if tier == "quick" else 12)]))
+        ks = [1, 2, nfull - 2] + [rng.randint(1, nfull - 2) for _ in range(4 if tier == "quick" else 12)]
+        # interruption right after a hop (last logged snapshot is the first one on the new surface), one step earlier and later
+        hopk = [j for j in range(1, nfull) if cls == "fssh" and full[j]["active"] != full[j - 1]["active"]]
+        for j in hopk[:3]: ks += [j - 1, j, j + 1]
+        # ... and where the active state is not the most populated one
+        minor = [j for j in range(1, nfull) if cls == "fssh" and int(np.argmax(np.real(np.diag(np.asarray(full[j]["density_matrix"]))))) != int(full[j]["active"])]
+        ks += minor[:2]
+        # ... and where a freshly computed adiabatic basis differs in sign from the tracked one
+        flips = []
+        if cls != "md":
+            for j in range(1, nfull - 1):
+                refj = full[j]["electronics"].get("reference")
+                if refj is None: continue
+                fresh = mk(cls, mname)[1].update(np.asarray(full[j]["position"]))._reference
+                sg = np.einsum("pi,pi->i", np.asarray(refj), np.asarray(fresh))
+                if np.any(sg < 0): flips.append(j)
+            ks += flips[:: max(1, len(flips) // 3)][:3]
+        ks = sorted(set(ks)); hopset, flipset, minorset = set(hopk), set(flips), set(minor)
         for k in ks:
             if k < 1 or k >= nfull - 1: continue
             backend = rng.choice(["memory", "yaml", "yaml"]); pitch = rng.randint(1, 9)
@@ -75,6 +96,9 @@ def run(tier, seed):
             except Exception as ex:
                 bad.append(dict(failed="restart raised %s: %s" % (type(ex).__name__, ex), case=info)); shutil.rmtree(d, ignore_errors=True); continue
             res.count("class/" + cls); res.count("model/" + mname); res.count("rule/" + rule); res.count("backend/" + backend)
+            if k in hopset: res.count("interrupted-right-after-hop")
+            if k in minorset: res.count("interrupted-with-active-state-not-most-populated")
+            if k in flipset: res.count("interrupted-where-fresh-basis-sign-differs")
             res.count("dt/" + ("explicit" if explicit_dt else "inferred")); res.count("t0/" + ("zero" if t0 == 0.0 else "nonzero")); res.count("dt-dyadic" if it % 2 == 0 else "dt-non-dyadic")
             res.case(("restart", cls, mname, k, rule, backend, pitch, explicit_dt), True, info)
             tol = 1e-10 if explicit_dt else 1e-7
@@ -101,7 +125,7 @@ def run(tier, seed):
         res.violation("implementation differs from Model/Restart.v (theorems no longer cover the code)",
                       dict(kind="correspondence", correspondence="Run/R13.chk13: Restart.restore vs the object built by restart()", failing_inputs=corr, no_failing_input_found=True))
     return finish(res, thm,
-                  rule="Ehrenfest / FSSH (thresholds supplied) / AdiabaticMD on simple, dual, extended, super, modelx, models, modelw (8 states), vibronic (5-D), shin-metiu, harmonic; interruption at steps 1, 2, N-2 and random k; "
+                  rule="Ehrenfest / FSSH (thresholds supplied) / AdiabaticMD on simple, dual, extended, super, modelx, models, modelw (8 states), vibronic (5-D), shin-metiu, harmonic; shin-metiu on a coarse grid; interruption at steps 1, 2, N-2, random k, right after hops, where the active state is not the most populated one and where a fresh adiabatic basis differs in sign from the tracked one; "
                        "memory and YAML logs with page sizes 1..9 (reloaded from disk); max_steps, max_time (multiple and non-multiple of dt); dt explicit or inferred; the restarted log is compared with the uninterrupted one; "
                        "non-trivial = distinct (class, model, k, rule, back-end)",
                   assumptions=["tolerance 1e-10 relative (explicit dt), 1e-7 when dt is inferred from two logged times", "YAML text round trip (oracle)"])
